@@ -402,6 +402,11 @@ func sysHandWritten() []sysIn {
 		{Pre: pre, Runs: []sysRun{{Kind: "apply", Objs: []sysObj{soA, soK}}, {Kind: "destroy", FailMut: []int{2}}, {Kind: "destroy"}}},
 		{Pre: pre, Runs: []sysRun{{Kind: "apply", Objs: []sysObj{soA, soK}}, {Kind: "destroy", FailMut: []int{1}}, {Kind: "destroy"}}},
 		{Pre: pre, Runs: []sysRun{{Kind: "apply", Objs: []sysObj{soK, soL}}, {Kind: "destroy", FailMut: []int{2}}, {Kind: "destroy", FailMut: []int{0}}, {Kind: "destroy"}}},
+		// a PATCH of an existing object that the server rejects as invalid (422) under client-side apply: a failed apply, nothing else —
+		// in particular no delete-and-recreate of the object from inside the apply task
+		{Pre: pre, Runs: []sysRun{{Kind: "apply", Objs: []sysObj{soA, soD}}, {Kind: "apply", Objs: []sysObj{{ID: soA.ID, Rev: 1}, soD}, FailMut: []int{0}, FailCode: 422}, {Kind: "apply", Objs: []sysObj{{ID: soA.ID, Rev: 1}, soD}}}},
+		{Pre: pre, Runs: []sysRun{{Kind: "apply", Objs: []sysObj{soA, soD}}, {Kind: "apply", Objs: []sysObj{{ID: soA.ID, Rev: 2}, {ID: soD.ID, Rev: 2}}, FailMut: []int{1}, FailCode: 422}, {Kind: "destroy"}}},
+		{Pre: pre, Runs: []sysRun{{Kind: "apply", Objs: []sysObj{soA}}, {Kind: "apply", Objs: []sysObj{{ID: soA.ID, Rev: 1}}, FailMut: []int{0}, FailCode: 409}, {Kind: "apply", Objs: []sysObj{{ID: soA.ID, Rev: 3}}, FailMut: []int{0}, FailCode: 403}}},
 		// the same id twice in an apply set: applied once (the last copy); a rejected apply of it is ONE failed apply of a new object
 		{Pre: pre, Runs: []sysRun{{Kind: "apply", Objs: []sysObj{soA, {ID: soA.ID, Rev: 1}}}, {Kind: "destroy"}}},
 		{Pre: pre, Runs: []sysRun{{Kind: "apply", Objs: []sysObj{soA, soD, {ID: soA.ID, Rev: 1}}, FailMut: []int{2}}, {Kind: "destroy"}}},
